@@ -65,9 +65,15 @@ def parseMT (j : Json) : Str × MediaType :=
    { schema := if isNull j "schema" then none else some (parseRS (getD j "schema" Json.null)),
      encs := (getArr j "encs").map parseEnc })
 
+def parseCsvView (j : Json) (k : String) : Option (List (List Str)) :=
+  if isNull j k then none else
+    some ((getArr j k).map fun rec => match rec with
+      | .arr fs => (strs fs.toList).map String.toList
+      | _ => [])
+
 def parsePart (j : Json) : Part :=
   { name := (getStr j "name").toList, ct := (getStr j "ct").toList, text := (getStr j "text").toList,
-    json := parseJsonView j "json" }
+    json := parseJsonView j "json", yaml := parseJsonView j "yaml", csv := parseCsvView j "csv" }
 
 def parseBody (j : Json) : BodyIn :=
   { text := (getStr j "text").toList,
@@ -79,10 +85,7 @@ def parseBody (j : Json) : BodyIn :=
         | _ => none),
     parts := if isNull j "parts" then none else some ((getArr j "parts").map parsePart),
     yaml := parseJsonView j "yaml",
-    csv := if isNull j "csv" then none else
-      some ((getArr j "csv").map fun rec => match rec with
-        | .arr fs => (strs fs.toList).map String.toList
-        | _ => []) }
+    csv := parseCsvView j "csv" }
 
 mutual
 partial def vJson : V → Json
